@@ -14,6 +14,8 @@ pub mod model {
     pub static mut RANGED: Vec<u32> = Vec::new();
     /// number of `fill_bytes` calls
     pub static mut FILL_CALLS: usize = 0;
+    /// draws made through any other entry point (next_u32 / next_u64 / gen)
+    pub static mut OTHER_DRAWS: usize = 0;
 
     #[cfg(kani)]
     pub fn byte() -> u8 { kani::any() }
@@ -64,17 +66,48 @@ impl SampleRange<u32> for core::ops::Range<u32> {
     }
 }
 
+/// destinations of `Rng::fill`
+pub trait Fill {
+    fn fill_from<R: RngCore + ?Sized>(&mut self, rng: &mut R);
+}
+impl Fill for [u8] {
+    fn fill_from<R: RngCore + ?Sized>(&mut self, rng: &mut R) { rng.fill_bytes(self) }
+}
+impl<const N: usize> Fill for [u8; N] {
+    fn fill_from<R: RngCore + ?Sized>(&mut self, rng: &mut R) { rng.fill_bytes(self) }
+}
+impl Fill for [u32] {
+    fn fill_from<R: RngCore + ?Sized>(&mut self, rng: &mut R) { let mut i = 0; while i < self.len() { self[i] = rng.next_u32(); i += 1; } }
+}
+impl Fill for [u64] {
+    fn fill_from<R: RngCore + ?Sized>(&mut self, rng: &mut R) { let mut i = 0; while i < self.len() { self[i] = rng.next_u64(); i += 1; } }
+}
+impl<const N: usize> Fill for [u64; N] {
+    fn fill_from<R: RngCore + ?Sized>(&mut self, rng: &mut R) { let mut i = 0; while i < N { self[i] = rng.next_u64(); i += 1; } }
+}
+impl<const N: usize> Fill for [u32; N] {
+    fn fill_from<R: RngCore + ?Sized>(&mut self, rng: &mut R) { let mut i = 0; while i < N { self[i] = rng.next_u32(); i += 1; } }
+}
+
 pub trait Rng: RngCore {
     fn gen_range<T, R: SampleRange<T>>(&mut self, range: R) -> T where Self: Sized { range.sample_single() }
+    fn fill<T: Fill + ?Sized>(&mut self, dest: &mut T) where Self: Sized { dest.fill_from(self) }
+    fn gen<T: Standard>(&mut self) -> T where Self: Sized { T::draw() }
 }
+/// types `Rng::gen` can produce in the model
+pub trait Standard { fn draw() -> Self; }
+impl Standard for u8 { fn draw() -> u8 { let b = model::byte(); #[allow(static_mut_refs)] unsafe { model::OTHER_DRAWS += 1; } b } }
+impl Standard for u32 { fn draw() -> u32 { #[allow(static_mut_refs)] unsafe { model::OTHER_DRAWS += 1; } model::word() } }
+impl Standard for u64 { fn draw() -> u64 { #[allow(static_mut_refs)] unsafe { model::OTHER_DRAWS += 1; } ((model::word() as u64) << 32) | model::word() as u64 } }
+impl<const N: usize> Standard for [u8; N] { fn draw() -> [u8; N] { let mut a = [0u8; N]; let mut i = 0; while i < N { a[i] = model::byte(); i += 1; } #[allow(static_mut_refs)] unsafe { model::OTHER_DRAWS += 1; } a } }
 impl<R: RngCore + ?Sized> Rng for R {}
 
 #[derive(Clone, Debug, Default)]
 pub struct ThreadRng { _p: () }
 
 impl RngCore for ThreadRng {
-    fn next_u32(&mut self) -> u32 { model::word() }
-    fn next_u64(&mut self) -> u64 { ((model::word() as u64) << 32) | model::word() as u64 }
+    fn next_u32(&mut self) -> u32 { #[allow(static_mut_refs)] unsafe { model::OTHER_DRAWS += 1; } model::word() }
+    fn next_u64(&mut self) -> u64 { #[allow(static_mut_refs)] unsafe { model::OTHER_DRAWS += 1; } ((model::word() as u64) << 32) | model::word() as u64 }
     fn fill_bytes(&mut self, dest: &mut [u8]) {
         #[allow(static_mut_refs)]
         unsafe { model::FILL_CALLS += 1; }
